@@ -169,12 +169,37 @@ func (h *openidHandler) HandleCredentialOffer(ctx context.Context, offer openid4
 			StatusCode: http.StatusInternalServerError,
 		}
 	}
+	if err = h.validateCredentialSubject(*credential); err != nil {
+		return openid4vci.Error{
+			Err:        fmt.Errorf("received credential does not match wallet: %w", err),
+			Code:       openid4vci.InvalidRequest,
+			StatusCode: http.StatusInternalServerError,
+		}
+	}
 	log.Logger().
 		WithField("credentialID", credential.ID).
 		Infof("Received VC over OpenID4VCI")
 	err = h.credentialStore.StoreCredential(*credential, nil)
 	if err != nil {
 		return fmt.Errorf("unable to store credential: %w", err)
+	}
+	return nil
+}
+
+// validateCredentialSubject checks that the credential is not about another subject than the owner of the wallet:
+// whoever sends a credential offer chooses the issuer the credential is retrieved from, and thus its contents.
+func (h *openidHandler) validateCredentialSubject(credential vc.VerifiableCredential) error {
+	type credentialSubject struct {
+		ID string `json:"id"`
+	}
+	var subjects []credentialSubject
+	if err := credential.UnmarshalCredentialSubject(&subjects); err != nil {
+		return fmt.Errorf("invalid credential subject: %w", err)
+	}
+	for _, subject := range subjects {
+		if subject.ID != "" && subject.ID != h.did.String() {
+			return fmt.Errorf("credential subject is not the wallet owner (subject=%s)", subject.ID)
+		}
 	}
 	return nil
 }
